@@ -41,8 +41,7 @@ func (m *Machine) unop(fr *frame, x *ssa.UnOp) Val {
 			}
 			return zero(et, nil)
 		}
-		e := ch.q[0]
-		ch.q = ch.q[1:]
+		e := m.chanPop(ch)
 		if x.CommaOk {
 			return TupleV{e, tTrue}
 		}
